@@ -197,7 +197,8 @@ func resolveOverloadedFun(env *Env, call *ast.CallExpr, fnName string, args []*T
 	for i, fnTy := range fnTys {
 		util.Assert(fnTy.Kind == KFun, "non callable of %s in %s", fnName, call)
 		monoFnTy := inferFun(fnTy, args)
-		if monoFnTy == nil {
+		if monoFnTy == nil || !Equals(Tuple(monoFnTy.Param), Tuple(args)) {
+			// 参数实例化后与实参类型不一致(例如空容器的 ⊥ 宽松匹配), 继续尝试下一个重载
 			continue
 		}
 		call.Resolved = polyFnKey // attach ast, 标记 callee 在环境中的 key
